@@ -85,7 +85,7 @@ MORE = {
     "C02": " L2 (Auditd.Read, real log lines) and L3 (built daemon) legs as for C01.",
     "C04": " L2 and L3 legs as for C01, with null sessions, unparsable PIDs and invalid logins.",
     "C05": " CountedOnce is part of the model. Through the whole worker (FIFO, ingesters, processor) a login blocked in the hand-off for 6.5 s while the correlator is busy must still be delivered; on one long-lived processor a login handed over earlier keeps its event (StreamLoginStable).",
-    "C06": " Every line is also delivered to ONE long-lived processor (StreamExact); every second concretisation keeps half of the previous values; a third of the lines is delivered twice in a row.",
+    "C06": " Every line is also delivered to ONE long-lived processor (StreamExact); every second concretisation keeps half of the previous values; a third of the lines is delivered twice in a row; three short runs of the built daemon (NODE_NAME set / empty / unset) check that every event carries this node's name and machine id.",
     "C07": " Also through a real FIFO and the whole ingester chain; audit record lines with and without their newline.",
     "C08": " 30 scenarios now: also partial EOF, unknown record type, the output breaking with events in flight (complete head event / staggered 2 s time-outs), and --healthz --metrics --audit-metrics with a busy port; the model has the HTTP and audit-metrics workers.",
     "C09": " Histories include the login of the reused PID overtaking the end of the earlier session (the two pipes are independent); L2 leg through Auditd.Read.",
